@@ -59,8 +59,22 @@ impl Prop for C09 {
     let mut kept_outer_name = false;
     let mut used_inner = false;
     let mut used_other = false;
-    for columns in [true, false] {
-      let map = guard(|| build(&case.spec).map(&opts(columns, false))).map_err(|p| format!("map(columns={columns}): {p}"))?;
+    // every answer is checked: on fresh objects, and on ONE object asked t, f, t, f (an answer kept from an earlier
+    // call must still be the answer for the setting asked now), also through the streaming entry point in between
+    let shared = build(&case.spec);
+    for (k, columns) in [true, false, true, false, true, false].into_iter().enumerate() {
+      let label = if k < 2 { String::new() } else { format!("one object asked map(t), map(f), stream, map(t), map(f): call {}: ", k - 2) };
+      let map = if k < 2 {
+        guard(|| build(&case.spec).map(&opts(columns, false)))
+      } else {
+        if k == 4 {
+          let _ = guard(|| crate::observe::stream(&*shared, &opts(true, false)));
+          let _ = guard(|| crate::observe::stream(&*shared, &opts(false, false)));
+        }
+        guard(|| shared.map(&opts(columns, false)))
+      }
+      .map_err(|p| format!("{label}map(columns={columns}): {p}"))?;
+      let mut body = || -> Result<(), String> {
       let got_full = attr_from_map(map.as_ref(), text, columns)?;
       let got: Vec<Attr> = got_full.iter().map(strip).collect();
       let ms = map.as_ref().map(|m| m.mappings().to_string());
@@ -183,6 +197,9 @@ impl Prop for C09 {
           }
         }
       }
+      Ok(())
+      };
+      body().map_err(|e| format!("{label}{e}"))?;
     }
     Ok(
       CaseInfo::nt(used_inner && used_other)
